@@ -8,6 +8,7 @@ PID = "C01"
 LEVEL = "other"
 CRATES = ["rlib_segtree"]
 RELEASE = True
+NO_HIDDEN_STATE = ['rlib_segtree']   # driver rule STATE: these crates are plain data structures / functions
 DEPENDS = ["C02"]   # the histories the property quantifies over include the boundary searches, which share the descent and the carry with the queries
 ARMED = True
 ENGINES = ["E1", "E3", "E4a"]
